@@ -17,6 +17,7 @@ package rohttpclient
 import (
 	"context"
 	"encoding/json"
+	"fmt"
 	"net/http"
 
 	"github.com/samber/ro"
@@ -36,6 +37,13 @@ func HTTPRequest(req *http.Request, client *http.Client) ro.Observable[*http.Res
 		ctx, cancel := context.WithCancel(req.Context())
 
 		go func() {
+			// a teardown that panics inside a terminal notification must not kill the process
+			defer func() {
+				if e := recover(); e != nil {
+					ro.OnUnhandledError(ctx, fmt.Errorf("%v", e))
+				}
+			}()
+
 			// Bind the cancelable context to a copy: `req` is shared by every
 			// subscription and must keep the context it was built with.
 			res, err := client.Do(req.WithContext(ctx))
